@@ -215,6 +215,11 @@ func Positions(level int) []Position {
 			Position{"anyof-branch", func(l J, r bool) J {
 				return obj(J{"c": J{"anyOf": A{l, obj(J{"q": J{"type": "integer"}}, A{"q"})}}}, req(r, "c"))
 			}},
+			Position{"anyof-branch-closed", func(l J, r bool) J {
+				closed := obj(J{"q": J{"type": "integer"}}, A{"q"})
+				closed["additionalProperties"] = false
+				return obj(J{"c": J{"anyOf": A{closed, l}}}, req(r, "c"))
+			}},
 			Position{"allof-branch", func(l J, r bool) J {
 				return obj(J{"c": J{"allOf": A{l, obj(J{"q": J{"type": "integer"}}, nil)}}}, req(r, "c"))
 			}},
